@@ -84,3 +84,7 @@ Lemma compute_bases_nil_anc h bt fuel c x :
 Proof.
   intros W B H. destruct (compute_bases_anc h bt W B fuel c [] x H) as [[]|H']. exact H'.
 Qed.
+
+Print Assumptions subclass_refl.
+Print Assumptions subclass_trans.
+Print Assumptions compute_bases_nil_anc.
